@@ -68,11 +68,11 @@ JsonFrags == <<
 CssFrags == <<
   F("w", {"Precision"}), F("two", {"Precision"}), F("pct", {"Precision"}), F("fn", {"Precision"}),
   F("big", {"KeepCSS2", "Precision"}), F("small", {"KeepCSS2", "Precision"}), F("transp", {"KeepCSS2"}),
-  F("zidx", {}), F("media", {"Precision"}), F("color", {}) >>
+  F("zidx", {}), F("media", {"Precision"}), F("color", {}), F("bigexp", {"Precision"}) >>
 SvgFrags == <<
   F("rect", {"Precision"}), F("circle", {"Precision"}), F("cmt", {"KeepComments"}),
   F("gcmt", {"KeepComments", "Precision"}), F("unit", {"Precision"}), F("text", {}),
-  F("vb", {"Precision"}), F("poly", {"Precision"}) >>
+  F("vb", {"Precision"}), F("poly", {"Precision"}), F("bigexp", {"Precision"}) >>
 JsFrags == <<
   F("nullish", {"Version"}), F("optchain", {"Version"}), F("catch", {"Version", "KeepVarNames"}),
   F("tmpl", {"Version"}), F("fn", {"KeepVarNames"}), F("closure", {"KeepVarNames"}), F("hoist", {"KeepVarNames"}),
